@@ -448,6 +448,48 @@ func closureOf(v ssa.Value) (*ssa.Function, []ssa.Value, bool) {
 	return nil, nil, false
 }
 
+// modelForName: l.ForName(name) for a gqlparser list type []*T where T has a Name field:
+// nil iff no element has that name; otherwise an element of the list with that name.
+func (fv *FV) modelForName(st *State, ins ssa.CallInstruction, v ssa.Value, callee *ssa.Function, args []string) bool {
+	cc := ins.Common()
+	sl, ok := cc.Args[0].Type().Underlying().(*types.Slice)
+	if !ok {
+		return false
+	}
+	pt, ok := sl.Elem().Underlying().(*types.Pointer)
+	if !ok {
+		return false
+	}
+	stt, ok := pt.Elem().Underlying().(*types.Struct)
+	if !ok {
+		return false
+	}
+	ni := -1
+	for i := 0; i < stt.NumFields(); i++ {
+		if stt.Field(i).Name() == "Name" && isString(stt.Field(i).Type()) {
+			ni = i
+		}
+	}
+	if ni < 0 {
+		return false
+	}
+	l, name := args[0], args[1]
+	ef := fv.elemFam(sl.Elem())
+	nf := fv.fieldFam(pt.Elem(), ni)
+	res := fv.freshConst("forname", "Int")
+	fv.assume(st, sx("<", res, st.wm))
+	q := fv.fresh("q!i")
+	elem := func(i string) string { return fv.read(st, ef, sx("s-base", l), sx("+", sx("s-off", l), i)) }
+	inRange := func(i string) string { return and(sx("<=", "0", i), sx("<", i, sx("s-len", l))) }
+	// nil iff no element is named so
+	fv.assume(st, eq(eq(res, "0"), fmt.Sprintf("(forall ((%s Int)) %s)", q, implies(inRange(q), not(eq(fv.read(st, nf, elem(q)), name))))))
+	w := fv.freshConst("fornameidx", "Int")
+	fv.assume(st, implies(not(eq(res, "0")), and(inRange(w), eq(elem(w), res), eq(fv.read(st, nf, res), name))))
+	fv.setVal(v, res)
+	fv.used("gqlparser XList.ForName(name): nil iff no element has that Name, else an element of the list with that Name")
+	return true
+}
+
 // nonVacuousErr: err is nil or does not format to an empty list (gqlerrors.ErrorList{} / gqlerror.List{}).
 func (fv *FV) nonVacuousErr(e string) string {
 	var conds []string
